@@ -1514,11 +1514,14 @@ func (c *RemoteClient) runConnection(ctx context.Context, conn net.Conn,
 	c.isConnected.Store(false)
 
 	sendsThread.Stop(ctx)
+
+	// Close the connection before waking sendMessages so that nothing can be written to a connection
+	// that did not complete its handshake.
+	conn.Close()
 	select {
 	case handshakeCompleteChannel <- nil: // ensure sendMessages is not waiting on the handshake
 	default:
 	}
-	conn.Close()
 
 	wait.Wait()
 
